@@ -176,8 +176,12 @@ func harmlessAttr(a html.Attribute) bool {
 	return false
 }
 
+// paraLike: the elements whose content, when it is nothing but text, line breaks and plain inline formatting,
+// forms one paragraph of running text: a p, and a table cell or list item (or div) holding such content directly
+var paraLike = map[string]bool{"p": true, "td": true, "th": true, "li": true, "div": true, "dd": true, "dt": true}
+
 func isSimplePara(p *html.Node) bool {
-	if p.Type != html.ElementNode || p.Data != "p" {
+	if p.Type != html.ElementNode || !paraLike[p.Data] {
 		return false
 	}
 	for _, a := range p.Attr {
@@ -481,11 +485,10 @@ func (w *refWalker) walk(n *html.Node, ctx refCtx) {
 				}
 				ctx.ph = true
 			}
-		case "p":
-			if ctx.para == 0 && isSimplePara(n) {
-				w.paraID++
-				ctx.para = w.paraID
-			}
+		}
+		if paraLike[tag] && ctx.para == 0 && isSimplePara(n) {
+			w.paraID++
+			ctx.para = w.paraID
 		}
 		if nestTags[tag] {
 			ctx.chain += "/" + tag
